@@ -50,27 +50,54 @@ ObsClass == IF out = "served" THEN "served"
 DirSafe(p) == \E r \in {Root, LockRoot, ConfRoot} : Under(r, p) \/ IsPrefix(Norm(p), Norm(r))
 ObservedSafe(t) == IF t.op = "leaf" THEN Under(RootOf(t.kind), t.path) ELSE DirSafe(t.path)
 
+Tile3(t) == <<t[1], t[2], t[3]>>
+
 Step ==
-  \/ E.ev = "receive" /\ Receive(E.flow) /\ UNCHANGED cands
-  \/ E.ev = "pop"     /\ PopPath(E.path) /\ UNCHANGED cands
-  \/ E.ev = "layer"   /\ LayerLookup(E.layer) /\ UNCHANGED cands
-  \/ E.ev = "dims"    /\ req.flow = "wms" /\ DimsWMS(DsOf(E.dims)) /\ UNCHANGED cands
-  \/ E.ev = "dims"    /\ req.flow # "wms" /\ DimsChecked(DsOf(E.dims)) /\ UNCHANGED cands
-  \/ E.ev = "tile"    /\ LimitTile(E.tile[1], E.tile[2], E.tile[3])
-                      /\ cands' = IF InGrid(<<E.tile[1], E.tile[2], E.tile[3]>>) THEN {coord'} ELSE {}
-  \/ E.ev = "coords"  /\ Len(E.cands) >= 1 /\ \A c \in Range(E.cands) : InGrid(c)
-                      /\ pc = "coord" /\ req.flow = "wms"
-                      /\ req' = [req EXCEPT !.tile = E.cands[1]] /\ coord' = E.cands[1] /\ pc' = "lock"
-                      /\ cands' = Range(E.cands)
-                      /\ UNCHANGED <<cdims, out, touched>>
-  \/ E.ev \in {"dims", "tile", "coords"} /\ pc = "done" /\ UNCHANGED <<vars, cands>>   \* refused before: not consumed
-  \/ E.ev = "lock"    /\ LockSet(cands) /\ UNCHANGED cands
-  \/ E.ev = "store"   /\ StoreSet(cands) /\ UNCHANGED cands
+  \/ /\ E.ev = "receive"
+     /\ Receive(E.flow)
+     /\ UNCHANGED cands
+  \/ /\ E.ev = "pop"
+     /\ PopPath(E.path)
+     /\ UNCHANGED cands
+  \/ /\ E.ev = "layer"
+     /\ LayerLookup(E.layer)
+     /\ UNCHANGED cands
+  \/ /\ E.ev = "dims"
+     /\ req.flow = "wms"
+     /\ DimsWMS(DsOf(E.dims))
+     /\ UNCHANGED cands
+  \/ /\ E.ev = "dims"
+     /\ req.flow # "wms"
+     /\ DimsChecked(DsOf(E.dims))
+     /\ UNCHANGED cands
+  \/ /\ E.ev = "tile"
+     /\ LimitTile(E.tile[1], E.tile[2], E.tile[3])
+     /\ (\A c \in Range(E.cands) : InGrid(c) /\ c[3] = E.tile[3])       \* the other tiles of the meta tile
+     /\ cands' = (IF InGrid(Tile3(E.tile)) THEN {coord'} \cup Range(E.cands) ELSE {})
+  \/ /\ E.ev = "coords"
+     /\ Len(E.cands) >= 1
+     /\ (\A c \in Range(E.cands) : InGrid(c))
+     /\ pc = "coord"
+     /\ req.flow = "wms"
+     /\ req' = [req EXCEPT !.tile = E.cands[1]]
+     /\ coord' = E.cands[1]
+     /\ pc' = "lock"
+     /\ cands' = Range(E.cands)
+     /\ UNCHANGED <<cdims, out, touched>>
+  \/ /\ E.ev \in {"dims", "tile", "coords"}        \* refused before: this part of the request is not consumed
+     /\ pc = "done"
+     /\ UNCHANGED <<vars, cands>>
+  \/ /\ E.ev = "lock"
+     /\ LockSet(cands)
+     /\ UNCHANGED cands
+  \/ /\ E.ev = "store"
+     /\ StoreSet(cands)
+     /\ UNCHANGED cands
   \/ /\ E.ev = "done"
      /\ pc = "done"
      /\ E.out = ObsClass
-     /\ \A t \in Range(E.touches) : Predicted(t)
-     /\ IF \E u \in Range(E.touches) : ~ObservedSafe(u) THEN TLCSet(3, TLCGet(3) \cup {tid}) ELSE TRUE
+     /\ (\A t \in Range(E.touches) : Predicted(t))
+     /\ (IF \E u \in Range(E.touches) : ~ObservedSafe(u) THEN TLCSet(3, TLCGet(3) \cup {tid}) ELSE TRUE)
      /\ UNCHANGED <<vars, cands>>
 
 TraceNext ==
